@@ -89,8 +89,8 @@ func ulpOK(dt ref.DT, got, exp float64, k int, num bool) bool {
 
 type sweepStat struct {
 	mu      sync.Mutex
-	count   map[string]int64   // class -> elements evaluated
-	failX   map[string]uint64  // class -> first failing input bits
+	count   map[string]int64  // class -> elements evaluated
+	failX   map[string]uint64 // class -> first failing input bits
 	failed  map[string]bool
 	failMsg map[string]string
 }
